@@ -3,3 +3,4 @@ import Spec.Assign
 import Spec.Errors
 import Spec.Stores
 import Spec.Print
+import Spec.Match
